@@ -250,7 +250,7 @@ Section Sess.
     hev_clean e -> S2 st -> http_event fuel O C st sid e = Some st' -> S2 st'.
   Proof.
     intros Hcl HS. pose proof HS as (A & B & D). unfold http_event.
-    destruct e as [|url ip|d|hlen|d| |reser revisit|];
+    destruct e as [|url ip|d|hlen|d| |reser revisit| |];
       destruct (sfind sid (st_sess st)) as [[h|f]|] eqn:F; try discriminate;
       try (pose proof (sfind_ok _ _ _ B F) as (K1 & K2 & K3 & K4 & K5)).
     - intros H. apply some_inj in H. subst st'. apply S2_sess; [exact HS|]. apply sput_ok; [|exact B].
@@ -299,6 +299,9 @@ Section Sess.
         * apply sput_ok; [|exact B].
           cbn [sess_ok h_req h_resp h_url h_ip h_stage opt_Pf]. split5; try assumption; try discriminate.
     - intros H. eapply S2_flush; [|exact H]. apply S2_sess; [exact HS|apply sdel_ok, B].
+    - destruct (Nat.eqb (h_stage h) 1 || Nat.eqb (h_stage h) 3); [|discriminate].
+      intros H. apply some_inj in H. subst st'. apply S2_sess; [exact HS|]. apply sput_ok; [|exact B].
+      cbn [sess_ok h_req h_resp h_url h_ip h_stage opt_Pf]. split5; try assumption; try discriminate.
   Qed.
 
   Lemma ftp_S2 st sid e st' :
